@@ -1,5 +1,6 @@
 import ClipVerif.Proofs.C09
 import ClipVerif.Proofs.Wind
+import ClipVerif.Proofs.WindOpen
 /-
 C09 — open subject paths are cut exactly at the clip region boundary.  Proved: the open-edge
 contribution test equals the keep predicate on the true winding numbers (all clip types and fill
@@ -50,5 +51,20 @@ theorem inserted_open_edge_contributes_iff_keep (ct fr : Nat) (left : List Activ
       keepOpen ct fr (windRight 0 left) (windRight 1 left) := by
   have _ := heo; have _ := hes
   exact Proofs.Wind.inserted_open_edge_contributes_iff_keep ct fr left e hct hfr hwf hclip h0
+
+/-- crossing a closed edge (`intersectEdges`, open-path branch): the open edge's contribution
+    toggles exactly when the keep predicate of the exact winding numbers differs on the two sides of
+    the closed edge — for every clip type, fill rule, either path type of the closed edge, whose
+    counts are right (`EdgeOK`) and which is hot exactly when contributing (the sweep invariant) -/
+theorem open_edge_toggles_iff_keep_changes (ct fr : Nat) (pre : List Active) (e2 : Active)
+    (hct : ct = 1 ∨ ct = 2 ∨ ct = 3) (hfr : fr ≤ 3) (hw : WF e2) (hc : isOpen e2 = false)
+    (hok : EdgeOK fr pre e2) (hpre : ∀ a ∈ pre, WF a) :
+    let pt := getPolyType e2
+    let W := windRight pt pre
+    let V := windRight (1 - pt) pre
+    let keep : Int → Bool := fun w => if pt = 0 then keepOpen ct fr w V else keepOpen ct fr V w
+    openCrossToggles ct fr e2 (contributing ct fr e2) = (keep W != keep (W + e2.windDx)) := by
+  exact Proofs.WindOpen.open_edge_toggles_iff_keep_changes ct fr pre e2 hct hfr hw hc hok hpre
+
 
 end C09
